@@ -26,10 +26,10 @@ AdminFaults == { [PauseProtocol("AUTH", "CCTP") EXCEPT !.faults = f] : f \in {<<
 MCAlphabet == Transfers \cup Plain \cup AdminFaults \cup { DepositIn("uusdc", 5) }
 SmallAlphabet == MCAlphabet
 
-StepProps == [][ Prop_C03(last') /\ Prop_C01(last') /\ Prop_C02(last') /\ Prop_C04(last') /\ Prop_C05(last')
+StepProps == [][ Prop_C03(last') /\ Prop_C01(last') /\ MC_C02(last') /\ Prop_C04(last') /\ Prop_C05(last')
                  /\ Prop_C10(last') /\ Prop_C12(last') ]_vars
 P01 == [][Prop_C01(last')]_vars
-P02 == [][Prop_C02(last')]_vars
+P02 == [][MC_C02(last')]_vars
 P03 == [][Prop_C03(last')]_vars
 P04 == [][Prop_C04(last')]_vars
 P05 == [][Prop_C05(last')]_vars
